@@ -429,6 +429,7 @@ type HarnessResult struct {
 	SymPaths                 int // paths with at least one symbolic variable
 	Truncated                bool
 	ThoroughBounds           bool // explored with vrt.Thorough() == true
+	MidBounds                bool // ... and vrt.Mid() == true
 	UsedVariant              bool
 	SolverTime               time.Duration
 	Wall                     time.Duration
@@ -449,6 +450,7 @@ func (P *Program) Explore(h *Harness, workers int, maxPaths int, nWitness int) *
 	t0 := time.Now()
 	hr := &HarnessResult{Name: h.Name, Funcs: map[string]bool{}, AssertLabels: map[string]int{}}
 	hr.ThoroughBounds = P.opts.Tier == "thorough" && !P.opts.ForceQuick
+	hr.MidBounds = hr.ThoroughBounds && P.opts.Mid
 	var mu sync.Mutex
 	cond := sync.NewCond(&mu)
 	stack := []workItem{{}}
